@@ -86,7 +86,7 @@ def run(ctx):
     repo = ctx.repo
     from ..report import reuse
     from . import c15 as _c15
-    reuse(ctx, _c15.run, ("C15.a2n",), "C16a2n", "conversion rule shared with C15: from_dict() and the constructors store every field through array_to_namespace(); a path that returns its argument "
+    reuse(ctx, _c15.a2n_rule, ("C15.a2n",), "C16a2n", "conversion rule shared with C15: from_dict() and the constructors store every field through array_to_namespace(); a path that returns its argument "
           "unconverted leaves a field in the namespace it came from, so a set rebuilt from its own dictionary holds arrays of two libraries and a partition of it no longer concatenates")
     shape_rule(ctx, repo)
     weights_guard_rule(ctx, repo)
